@@ -16,7 +16,22 @@ def table():
         assert out.startswith("ok ")
         rows = []
         for tok in out[3:].split(" "):
+            if tok.startswith("#"):
+                continue
             c, sy, k = tok.split("|")
             rows.append((c, sy, None if k == "none" else common.parse_rat(k)))
         _cache = rows
     return _cache
+
+
+def dimensions():
+    """{class: {base class: exponent}} for the predefined catalogue"""
+    out = common.run_driver(["siref"])[0]
+    dims = {}
+    for tok in out[3:].split(" "):
+        if tok.startswith("#"):
+            c, m, l, t, dv = tok[1:].split("|")
+            d = {"Mass": int(m), "Length": int(l), "Duration": int(t), "DataVolume": int(dv)}
+            dims[c] = {k: v for k, v in d.items() if v}
+    dims["Temperature"] = {"Temperature": 1}
+    return dims
